@@ -228,6 +228,19 @@ def run(chk):
             if dq != [(["a"], ["q1"]), (["q1"], ["q2"])] or c.inputs() != {"a"} or c.outputs() != {"q2"}:
                 prob = {"problem": "flops not chained a -> q1 -> q2", "flops": dq, "inputs": sorted(c.inputs()), "outputs": sorted(c.outputs())}
         chk.ob("C15.R.dff", f"dff::chain::{order_name}", prob is None, file=FILE, func="bench_to_circuit", line=fr_.node.lineno, fact=prob or {}, expect="two flip-flops, a -> q1 -> q2, whichever line comes first")
+    # several registers sampling one net (a shadow register, a pipeline fork): each line is a flip-flop of its own
+    text = "INPUT(a)\nINPUT(b)\nOUTPUT(o)\nd = AND(a, b)\nq1 = DFF(d)\nq2 = dff( d )\nq3 = DFF(d)\no = XOR(q1, q2, q3)\n"
+    r = P.call(FILE, "bench_to_circuit", text, "s")
+    n += 1
+    prob = None
+    if r[0] != "return":
+        prob = {"problem": "reader raises", "result": str(r)[:160]}
+    else:
+        c = r[1]
+        dq = sorted((sorted(c.fanin(f"{i}.{list(bb.inputs())[0]}")), sorted(c.fanout(f"{i}.{list(bb.outputs())[0]}"))) for i, bb in c.blackboxes.items())
+        if dq != [(["d"], ["q1"]), (["d"], ["q2"]), (["d"], ["q3"])] or c.inputs() != {"a", "b"} or c.outputs() != {"o"}:
+            prob = {"problem": "not three flops d -> q1, d -> q2, d -> q3", "flops": dq, "inputs": sorted(c.inputs())}
+    chk.ob("C15.R.dff", "dff::three flops sampling one net", prob is None, file=FILE, func="bench_to_circuit", line=fr_.node.lineno, fact=prob or {}, expect="one flip-flop per DFF line")
     text = "INPUT(x)\nOUTPUT(q)\nOUTPUT(y)\nq = DFF(d)\nd = XOR(x, q)\ny = AND(x, q)\n"
     r = P.call(FILE, "bench_to_circuit", text, "s")
     n += 1
